@@ -232,8 +232,8 @@ def evaluate(pid, cases, oc=None, compare_outside_domain=False):
         sample = [(c, t, o) for c, t, o in zip(cases, texts, impl_obs) if 'err' in o and 'impl' not in c and (o['err'] or o['warns'])]
         rest = [(c, t, o) for c, t, o in zip(cases, texts, impl_obs) if 'err' in o and 'impl' not in c and not (o['err'] or o['warns'])]
         flags_route(oc, pid, sample[::max(1, len(sample) // 500)] + rest[::max(1, len(rest) // 200)])
-    if pid == 'C04':
-        file_route(oc)
+    if pid in ('C01', 'C02', 'C03', 'C04'):
+        file_route(oc, pid)
     if pid == 'C06':
         collection_route(oc, [(c, t, o) for c, t, o in zip(cases, texts, impl_obs)
                               if 'err' in o and not o['err'] and len(o.get('warns') or []) >= 2 and 'live_history' not in c])
@@ -321,7 +321,7 @@ def flags_route(oc, pid, triples):
         shutil.rmtree(tmp, ignore_errors=True)
 
 
-def file_route(oc):
+def file_route(oc, pid='C04'):
     """C04 for messages that arrive as FILES in another encoding (declared in the XML declaration): what the
     message carries must reach the running order exactly as the document says (neutral reading of the same bytes)."""
     import os, tempfile, warnings, pathlib
@@ -331,8 +331,12 @@ def file_route(oc):
     txt = 'Caf\u00e9 Zo\u00eb \u00a320 \u00bd'
     item = lambda i: B.item(i, extra=[E('note', text=txt, attrs={'lang': 'fran\u00e7ais'})])
     story = lambda i: B.story(i, [B.p(txt), item(i + '-1')])
-    ro = B.ro_doc([B.story('A', [B.item('I1'), B.item('I2')]), B.story('B', [])])
-    msgs = {'StoryAppend': B.story_append([story('X')]), 'StoryInsert': B.story_insert('B', [story('X')]), 'StoryReplace': B.story_replace('A', [story('X')]),
+    # (IDs with non-ASCII letters that a wrong decoding would merge into one: caf\u00e9 / caf\u00e8)
+    e1, e2 = 'caf\u00e9', 'caf\u00e8'
+    ro = B.ro_doc([B.story('A', [B.item('I1'), B.item('I2'), B.item(e1), B.item(e2)]), B.story(e1, [B.item('x')]), B.story('B', []), B.story(e2, [B.item('y')])])
+    msgs = {'StoryDelete': B.story_delete([e2]), 'StoryMove': B.story_move([e2, e1]), 'EAStorySwap': B.ea('SWAP', B.ABSENT, [B.ids('storyID', [e2, 'A'])]),
+            'ItemDelete': B.item_delete('A', [e2]), 'ItemMoveMultiple': B.item_move_multiple('A', [e2, 'I1']), 'EAItemDelete': B.ea('DELETE', {'storyID': e2}, [B.ids('itemID', ['y'])]),
+            'StorySend-accent': B.story_send(e2, [B.p(txt)]),'StoryAppend': B.story_append([story('X')]), 'StoryInsert': B.story_insert('B', [story('X')]), 'StoryReplace': B.story_replace('A', [story('X')]),
             'StorySend': B.story_send('A', [B.p(txt), item('S1')]), 'ItemInsert': B.item_insert('A', 'I2', [item('N')]),
             'ItemReplace': B.item_replace('A', 'I1', [item('N')]), 'EAStoryInsert': B.ea('INSERT', {'storyID': 'B'}, [[story('X')]]),
             'EAItemReplace': B.ea('REPLACE', {'storyID': 'A', 'itemID': 'I1'}, [[item('N')]]),
@@ -342,13 +346,21 @@ def file_route(oc):
     tmp = tempfile.mkdtemp(prefix='mrm-c04-')
     try:
         for cls, msg in msgs.items():
+            cls = cls.split('-')[0]
             for enc, decl in encs:
                 data = ('<?xml version="1.0" encoding="%s"?>' % decl + TJ.to_text(msg)).encode(enc)
                 path = os.path.join(tmp, f'{cls}-{enc}.mos.xml')
                 with open(path, 'wb') as f:
                     f.write(data)
                 neutral = TJ.to_tree(__import__('xml.etree.ElementTree', fromlist=['x']).fromstring(data))
-                r = impl.load(TJ.to_text(ro))
+                try:
+                    # the running order comes from a file in the same encoding
+                    rpath = os.path.join(tmp, f'ro-{enc}.mos.xml')
+                    with open(rpath, 'wb') as f:
+                        f.write(('<?xml version="1.0" encoding="%s"?>' % decl + TJ.to_text(ro)).encode(enc))
+                    r = MosFile.from_file(rpath)
+                except Exception:  # noqa: BLE001
+                    r = impl.load(TJ.to_text(ro))
                 try:
                     with warnings.catch_warnings():
                         warnings.simplefilter('ignore')
@@ -367,7 +379,8 @@ def file_route(oc):
         oc.evaluations += 1
         oc.in_domain += 1
         oc.count('file-route:' + enc)
-        bad = str(o['err']).startswith('load:') or not r.get('props', {}).get('C04', {}).get('holds', False) or o['ro'] != r['model']['ro']
+        pr = r.get('props', {}).get(pid, {})
+        bad = str(o['err']).startswith('load:') or (pr.get('dom', False) and not pr.get('holds', False)) or o['ro'] != r['model']['ro']
         if bad:
             oc.failing.append({'kind': 'add', 'label': f'{cls} from a file in {enc}', 'cls': cls, 'ro_text': TJ.to_text(ro), 'msg_text': TJ.to_text(neutral),
                                'file_route': {'encoding': enc, 'data_hex': data.hex()},
@@ -450,7 +463,7 @@ def replay_add(pid, rec):
         return bool(oc2.failing), {'failing': [f['impl'] for f in oc2.failing]}
     if 'file_route' in rec:
         oc2 = Outcome(pid)
-        file_route(oc2)
+        file_route(oc2, pid)
         return bool(oc2.failing), {'failing': [f['label'] for f in oc2.failing]}
     if 'route' in rec:
         oc2 = Outcome(pid)
